@@ -75,6 +75,7 @@ type BaseStore struct {
 	muCache   sync.RWMutex
 	muIndex   sync.RWMutex
 	muJoining sync.Mutex
+	muWrite   sync.Mutex
 	sortFn    ipfslog.SortFn
 	logger    *zap.Logger
 	tracer    trace.Tracer
@@ -863,6 +864,31 @@ func (b *BaseStore) AddOperation(ctx context.Context, op operation.Operation, on
 
 	oplog := b.OpLog()
 
+	e, err := b.appendAndPersist(ctx, oplog, data)
+	if err != nil {
+		return nil, err
+	}
+
+	if err := b.emitters.evtWrite.Emit(stores.NewEventWrite(b.Address(), e, oplog.Heads().Slice())); err != nil {
+		b.logger.Warn("unable to emit event write", zap.Error(err))
+	}
+
+	if onProgressCallback != nil {
+		onProgressCallback <- e
+	}
+
+	return e, nil
+}
+
+// appendAndPersist appends data to the log, persists the new local head and
+// updates the index as one step with respect to other local writers: the head
+// written to the cache must be the one of the latest append, otherwise a
+// concurrent writer can leave an older head in the cache and its successor is
+// lost on restart.
+func (b *BaseStore) appendAndPersist(ctx context.Context, oplog ipfslog.Log, data []byte) (ipfslog.Entry, error) {
+	b.muWrite.Lock()
+	defer b.muWrite.Unlock()
+
 	e, err := oplog.Append(ctx, data, &ipfslog.AppendOptions{PointerCount: b.referenceCount})
 	if err != nil {
 		return nil, fmt.Errorf("unable to append data on log: %w", err)
@@ -882,14 +908,6 @@ func (b *BaseStore) AddOperation(ctx context.Context, op operation.Operation, on
 
 	if err := b.updateIndex(ctx); err != nil {
 		return nil, fmt.Errorf("unable to update index: %w", err)
-	}
-
-	if err := b.emitters.evtWrite.Emit(stores.NewEventWrite(b.Address(), e, oplog.Heads().Slice())); err != nil {
-		b.logger.Warn("unable to emit event write", zap.Error(err))
-	}
-
-	if onProgressCallback != nil {
-		onProgressCallback <- e
 	}
 
 	return e, nil
